@@ -8,12 +8,14 @@ CONSTANTS
   MaxEnv = 9
   MaxRequeue = 2
   MaxOffers = 2
+  MaxSplit = 1
   SkipOccupied = TRUE
   CallbackOwnOnly = TRUE
   RemoveCancels = TRUE
   CycleSkipsLocked = TRUE
   OfferSkipsLocked = TRUE
   OfferSkipsOccupied = TRUE
+  StartRechecks = TRUE
 INVARIANT TypeOK
 INVARIANT AtMostOneNegotiation
 INVARIANT SlotsTrackLive
